@@ -737,6 +737,18 @@ def std_summaries():
     P[r'std::io::Error::kind'] = lambda se, env, pc, e: one(env, (se.deref(env, e) if isinstance(e, Ref) else e).get('kind', Opaque('kind')) if isinstance((se.deref(env, e) if isinstance(e, Ref) else e), dict) else Opaque('kind'))
     P[r'<.* as ToString>::to_string'] = lambda se, env, pc, e: one(env, {'str': '<to_string>'})
     P[r'std::io::Error::new'] = lambda se, env, pc, kind, msg: one(env, {'kind': kind, '__ty': 'io::Error'})
+    def _full(se, env, v):
+        n = 0
+        while isinstance(v, Ref) and n < 10: v = se.deref(env, v); n += 1
+        return v
+    def range_contains(incl):
+        def f(se, env, pc, r, x):
+            rv = _full(se, env, r); a, b, xv = _full(se, env, rv[0]), _full(se, env, rv[1]), _full(se, env, x)
+            if not (is_bv(a) and is_bv(b) and is_bv(xv)): raise Inconclusive('Range::contains over %r %r %r' % (a, b, xv))
+            return one(env, And(ULE(a, xv), ULE(xv, b) if incl else ULT(xv, b)))
+        return f
+    P[r'std::ops::Range::contains|std::ops::Range::<.*>::contains'] = range_contains(False)
+    P[r'std::ops::RangeInclusive::contains|std::ops::RangeInclusive::<.*>::contains'] = range_contains(True)
     P[r'<std::io::Error as From<std::io::ErrorKind>>::from'] = lambda se, env, pc, kind: one(env, {'kind': kind, '__ty': 'io::Error'})
     P[r'std::mem::drop'] = unit
     combinator_summaries(P)
